@@ -308,6 +308,22 @@ def write_docx(doc: dict) -> bytes:
     members["[Content_Types].xml"] = etree.tostring(ct, xml_declaration=True, encoding="UTF-8", standalone=True)
     members["word/_rels/document.xml.rels"] = etree.tostring(rels, xml_declaration=True, encoding="UTF-8", standalone=True)
 
+    # style sheet variants: the built-in headings under localised ids (as non-English Word writes them: name
+    # 'heading 1', id 'Titre1'), or not defined at all. Abstract documents always use the canonical ids 'HeadingN'.
+    variant = doc.get("styles_variant")
+    if variant == "localized":
+        st = members["word/styles.xml"].decode("utf-8")
+        st = re.sub(r'(w:styleId|w:val)="Heading(\d)', r'\1="Titre\2', st)
+        members["word/styles.xml"] = st.encode("utf-8")
+        for n in list(members):
+            if re.match(r"^word/(document|header\d*|footer\d*)\.xml$", n):
+                x = members[n] if isinstance(members[n], str) else members[n].decode("utf-8")
+                members[n] = re.sub(r'(<w:pStyle w:val=")Heading(\d")', r"\1Titre\2", x).encode("utf-8")
+    elif variant == "no_headings":
+        st = members["word/styles.xml"].decode("utf-8")
+        st = re.sub(r'<w:style\b[^>]*w:styleId="Heading\d(?:Char)?"[^>]*>.*?</w:style>', "", st, flags=re.S)
+        members["word/styles.xml"] = st.encode("utf-8")
+
     out = io.BytesIO()
     with zipfile.ZipFile(out, "w", zipfile.ZIP_DEFLATED) as z:
         order = ["[Content_Types].xml"] + [n for n in members if n != "[Content_Types].xml"]
@@ -521,6 +537,12 @@ def read_docx(data: bytes) -> dict:
                 doc["sect"] += _ser(c)
     if b"evenAndOddHeaders" in pkg.members.get("word/settings.xml", b""):
         doc["even_odd"] = True
+    styles_xml = pkg.members.get("word/styles.xml", b"")
+    if b'w:styleId="Titre1"' in styles_xml:
+        doc["styles_variant"] = "localized"
+        _map_para_styles(doc, lambda sid: re.sub(r"^Titre(\d)$", r"Heading\1", sid))
+    elif styles_xml and b'w:styleId="Heading1"' not in styles_xml:
+        doc["styles_variant"] = "no_headings"
     related = {pkg.resolve("word/document.xml", r["target"]) for r in pkg.doc_rels if r.get("mode") != "External"}
 
     def flag(names):
@@ -560,6 +582,32 @@ def read_docx(data: bytes) -> dict:
             doc["comments_cex"].append({"durable": e.get(q("w16cex:durableId")), "date": e.get(q("w16cex:dateUtc"))})
     doc["hyperlinks"] = [{"rid": r["id"], "target": r["target"]} for r in pkg.doc_rels if r["type"] == RT_HYPERLINK]
     return doc
+
+
+def _map_para_styles(doc, f):
+    def walk(blocks):
+        for b in blocks:
+            if "p" in b:
+                if b["p"].get("style") is not None:
+                    b["p"]["style"] = f(b["p"]["style"])
+            elif "tbl" in b:
+                for row in b["tbl"]["rows"]:
+                    for c in row["cells"]:
+                        walk(c["blocks"])
+    walk(doc["body"])
+    for st in doc.get("headers", []) + doc.get("footers", []):
+        walk(st["blocks"])
+
+
+def undefined_paragraph_styles(data: bytes) -> list:
+    """paragraph style ids used in the stories of a package that its styles part does not define (raw ids)"""
+    pkg = Package(data)
+    defined = set(re.findall(rb'w:styleId="([^"]*)"', pkg.members.get("word/styles.xml", b"")))
+    used = set()
+    for n, b in pkg.members.items():
+        if re.match(r"^word/(document|header\d*|footer\d*)\.xml$", n):
+            used |= set(re.findall(rb'<w:pStyle w:val="([^"]*)"', b))
+    return sorted(x.decode("utf-8", "replace") for x in used - defined)
 
 
 def strip_volatile(doc: dict) -> dict:
